@@ -191,7 +191,7 @@ def check(res, tier, replay=None):
                 for cfg, n, sc in load_replay(replay):
                     found |= run_config(res, prep, h, drv, emu, d, cfg, [sc], kills=[n])
             else:
-                nrand, nbound = (6, 3) if tier == "quick" else (60, 20)
+                nrand, nbound = (6, 3) if tier == "quick" else (150, 50)
                 scripts = [fs_lib.gen_prog(r, res) for _ in range(nrand)] + [fs_lib.gen_prog(r, res, boundary=True) for _ in range(nbound)]
                 for sc in scripts[:2]:
                     res.sample({"script": sc[:300]})
